@@ -35,7 +35,7 @@ from props import visitlib as vl
 
 PID = "C06"
 TABLES = ["C06"]
-CLI_TIMEOUT = 30
+CLI_TIMEOUT = 180   # generous: wall-clock under load must not become a verdict
 
 # form -> (needs importer in a package, min depth of the callee module, style)
 #   style "prefix": the callee is spelled <prefix>.<local spelling>;  "name": the bare (possibly aliased) name
